@@ -784,7 +784,24 @@ class mark_step_pending:
     @staticmethod
     def ensures(self, step):
         if cur().data.get("active") != "stepup/core/workflow.py::Workflow.mark_step_pending":
-            cur().event("mark_step_pending", step=step)  # callers see the call as an effect
+            from contracts import graphdb
+
+            c = cur()
+            c.event("mark_step_pending", step=step)  # callers see the call as an effect
+            # effect on the stored step states (proved below as the only state it writes): steps only become PENDING
+            db = common.db_of(self)
+            if hasattr(db, "col_version"):
+                old = db.__snapshot__()
+                db.version += 1
+                for cn in graphdb.table_columns("step"):
+                    if cn != "node":
+                        db.touch("step", cn)
+                for cn in ("state", "hash"):
+                    db.touch("file", cn)
+                k = tm.Var(c.fresh_name("k!bound"), INT)
+                new_s, old_s = graphdb.val(db, "step", "state", k), graphdb.val(old, "step", "state", k)
+                return wrap_bool(tm.ForAll([(k.s, INT)], tm.Or(tm.Eq(new_s, old_s), tm.Eq(new_s, tm.mk_int(StepState.PENDING.value))),
+                                           patterns=[[new_s]]))
         return True
 
 
